@@ -50,7 +50,7 @@ def run(res, tier, seed, shard, nshards):
     W = H.ws()
     rng = random.Random((seed << 8) ^ shard ^ 0xC10)
     H.scrub_env()
-    n = (1600 if tier == "quick" else 40000) // nshards
+    n = (1600 if tier == "quick" else 80000) // nshards
     names = list(DIMS)
     pair_seen = set()
     keys_seen = set()
